@@ -75,6 +75,19 @@ var preludeFns = map[string]preludeFn{
 	"bstr_content":      {[]Sort{SBytes}, SBytes},
 	"item_wf":           {[]Sort{SBytes}, SBool},
 	"abs":               {[]Sort{SInt}, SInt},
+	"dec_shape_err":     {[]Sort{SAny, SBytes, SStr}, SAny},
+	"dec_bytes_err":     {[]Sort{SAny, SBytes}, SAny},
+	"dec_elem":          {[]Sort{SBytes, SInt}, SBytes},
+	"dec_elem2":         {[]Sort{SBytes, SInt, SInt}, SBytes},
+	"dec_count":         {[]Sort{SBytes, SInt}, SInt},
+	"dec_isnull":        {[]Sort{SBytes, SInt}, SBool},
+	"dec_any":           {[]Sort{SAny, SBytes}, SAny},
+	"dec_map_dom":       {[]Sort{SAny, SBytes}, "(Array Any Bool)"},
+	"dec_map_val":       {[]Sort{SAny, SBytes}, "(Array Any Any)"},
+	"dec_map_len":       {[]Sort{SAny, SBytes}, SInt},
+	"dec_map_raw":       {[]Sort{SAny, SBytes, SAny}, SBytes},
+	"dec_labels_err":    {[]Sort{SAny, SBytes}, SAny},
+	"dec_val_ok":        {[]Sort{SAny}, SBool},
 	"has_int":           {[]Sort{"(Array Any Bool)", SInt}, SBool},
 	"int_witness":       {[]Sort{"(Array Any Bool)", SInt}, SAny},
 	"any_is_int":        {[]Sort{SAny}, SBool},
@@ -394,7 +407,7 @@ func (e *Engine) pureSpec(sf *SpecFn) bool {
 		}()
 		u := &Unit{eng: e, name: "pure", init0: map[string]Term{}, usedExterns: map[string]bool{}, usedContracts: map[string]bool{}}
 		st := &State{pc: True, comps: map[string]Term{}}
-		env := &SEnv{u: u, cur: st, old: nil, vars: map[string]*SVal{}, fn: "spec " + sf.Name, pc: True, noAssume: true}
+		env := &SEnv{u: u, cur: st, old: st, vars: map[string]*SVal{}, fn: "spec " + sf.Name, pc: True, noAssume: true}
 		var params []string
 		for _, p := range sf.Params {
 			pt := e.resolveType(p.Type)
